@@ -44,6 +44,12 @@ func (ex *Exec) vtCall(g *G, fn *ssa.Function, args []Value, done func(Value)) {
 		lim := B.F32C(65536)
 		ex.assume(B.And(B.FCmp(smt.OFEq, B.FUn(smt.OFRound, f), f), B.FCmp(smt.OFLe, B.FUn(smt.OFNeg, lim), f), B.FCmp(smt.OFLe, f, lim)))
 		done(f)
+	case "IntF":
+		// an integer-valued float of magnitude <= 2^16 in the exact integer abstraction
+		i := ex.input(str(0), "intf", smt.BV(smt.IntFW))
+		lim := B.BVC(65536, smt.IntFW)
+		ex.assume(B.And(B.Sle(B.Neg(lim), i), B.Sle(i, lim)))
+		done(i)
 	case "Choose":
 		n, ok := concInt(args[1])
 		if !ok || n <= 0 {
@@ -224,6 +230,12 @@ func (ex *Exec) vtCall(g *G, fn *ssa.Function, args []Value, done func(Value)) {
 func obsKind(iv IfaceV) string {
 	if t, ok := iv.V.(*smt.Term); ok && isOrd(t) {
 		return "strord"
+	}
+	if t, ok := iv.V.(*smt.Term); ok && isIntF(t) {
+		if iv.T != nil && iv.T.String() == "float64" {
+			return "intf64"
+		}
+		return "intf32"
 	}
 	if iv.T != nil && isSigned(iv.T) {
 		return "signed"
